@@ -300,8 +300,8 @@ package proto
 //@   let o = fpos[r.Reader]
 //@   let L = gbe16(r.cmd.Data, 0)
 //@   ensures iofaults >= old(iofaults) && fpos[c] >= o && fpos[c] <= o + L @at-most
-//@   ensures[C03] err == nil ==> fpos[c] == o + L && len(p) == L @consumed
-//@   ensures[C03] err == nil && 0 <= i && i < L ==> p[i] == fcontent[c][o + i] @bytes
+//@   ensures[C03] err == nil ==> fpos[c] == o + L @consumed
+//@   ensures[C01] err == nil ==> confined(p) && len(p) > 0 && p[0] == '/' @rooted-and-cleaned
 //@ func Reader.ReadStatFile results(p, err)
 //@   tags C03,C04,C01
 //@   any i int
@@ -311,8 +311,8 @@ package proto
 //@   let o = fpos[r.Reader]
 //@   let L = gbe16(r.cmd.Data, 0)
 //@   ensures iofaults >= old(iofaults) && fpos[c] >= o && fpos[c] <= o + L @at-most
-//@   ensures[C03] err == nil ==> fpos[c] == o + L && len(p) == L @consumed
-//@   ensures[C03] err == nil && 0 <= i && i < L ==> p[i] == fcontent[c][o + i] @bytes
+//@   ensures[C03] err == nil ==> fpos[c] == o + L @consumed
+//@   ensures[C01] err == nil ==> confined(p) && len(p) > 0 && p[0] == '/' @rooted-and-cleaned
 //@ func Reader.ReadOpenFile results(p, err)
 //@   tags C03,C04,C01
 //@   any i int
@@ -322,8 +322,8 @@ package proto
 //@   let o = fpos[r.Reader]
 //@   let L = gbe16(r.cmd.Data, 0)
 //@   ensures iofaults >= old(iofaults) && fpos[c] >= o && fpos[c] <= o + L @at-most
-//@   ensures[C03] err == nil ==> fpos[c] == o + L && len(p) == L @consumed
-//@   ensures[C03] err == nil && 0 <= i && i < L ==> p[i] == fcontent[c][o + i] @bytes
+//@   ensures[C03] err == nil ==> fpos[c] == o + L @consumed
+//@   ensures[C01] err == nil ==> confined(p) && len(p) > 0 && p[0] == '/' @rooted-and-cleaned
 //@ func Reader.ReadCreateFile results(p, err)
 //@   tags C03,C04,C01
 //@   any i int
@@ -333,8 +333,8 @@ package proto
 //@   let o = fpos[r.Reader]
 //@   let L = gbe16(r.cmd.Data, 0)
 //@   ensures iofaults >= old(iofaults) && fpos[c] >= o && fpos[c] <= o + L @at-most
-//@   ensures[C03] err == nil ==> fpos[c] == o + L && len(p) == L @consumed
-//@   ensures[C03] err == nil && 0 <= i && i < L ==> p[i] == fcontent[c][o + i] @bytes
+//@   ensures[C03] err == nil ==> fpos[c] == o + L @consumed
+//@   ensures[C01] err == nil ==> confined(p) && len(p) > 0 && p[0] == '/' @rooted-and-cleaned
 //@ func Reader.ReadDeleteFile results(p, err)
 //@   tags C03,C04,C01
 //@   any i int
@@ -344,8 +344,8 @@ package proto
 //@   let o = fpos[r.Reader]
 //@   let L = gbe16(r.cmd.Data, 0)
 //@   ensures iofaults >= old(iofaults) && fpos[c] >= o && fpos[c] <= o + L @at-most
-//@   ensures[C03] err == nil ==> fpos[c] == o + L && len(p) == L @consumed
-//@   ensures[C03] err == nil && 0 <= i && i < L ==> p[i] == fcontent[c][o + i] @bytes
+//@   ensures[C03] err == nil ==> fpos[c] == o + L @consumed
+//@   ensures[C01] err == nil ==> confined(p) && len(p) > 0 && p[0] == '/' @rooted-and-cleaned
 //@ func Reader.ReadMkdir results(p, err)
 //@   tags C03,C04,C01
 //@   any i int
@@ -355,8 +355,8 @@ package proto
 //@   let o = fpos[r.Reader]
 //@   let L = gbe16(r.cmd.Data, 0)
 //@   ensures iofaults >= old(iofaults) && fpos[c] >= o && fpos[c] <= o + L @at-most
-//@   ensures[C03] err == nil ==> fpos[c] == o + L && len(p) == L @consumed
-//@   ensures[C03] err == nil && 0 <= i && i < L ==> p[i] == fcontent[c][o + i] @bytes
+//@   ensures[C03] err == nil ==> fpos[c] == o + L @consumed
+//@   ensures[C01] err == nil ==> confined(p) && len(p) > 0 && p[0] == '/' @rooted-and-cleaned
 //@ func Reader.ReadRmdir results(p, err)
 //@   tags C03,C04,C01
 //@   any i int
@@ -366,8 +366,8 @@ package proto
 //@   let o = fpos[r.Reader]
 //@   let L = gbe16(r.cmd.Data, 0)
 //@   ensures iofaults >= old(iofaults) && fpos[c] >= o && fpos[c] <= o + L @at-most
-//@   ensures[C03] err == nil ==> fpos[c] == o + L && len(p) == L @consumed
-//@   ensures[C03] err == nil && 0 <= i && i < L ==> p[i] == fcontent[c][o + i] @bytes
+//@   ensures[C03] err == nil ==> fpos[c] == o + L @consumed
+//@   ensures[C01] err == nil ==> confined(p) && len(p) > 0 && p[0] == '/' @rooted-and-cleaned
 //@ func Reader.ReadGetDirSize results(p, err)
 //@   tags C03,C04,C01
 //@   any i int
@@ -377,8 +377,8 @@ package proto
 //@   let o = fpos[r.Reader]
 //@   let L = gbe16(r.cmd.Data, 0)
 //@   ensures iofaults >= old(iofaults) && fpos[c] >= o && fpos[c] <= o + L @at-most
-//@   ensures[C03] err == nil ==> fpos[c] == o + L && len(p) == L @consumed
-//@   ensures[C03] err == nil && 0 <= i && i < L ==> p[i] == fcontent[c][o + i] @bytes
+//@   ensures[C03] err == nil ==> fpos[c] == o + L @consumed
+//@   ensures[C01] err == nil ==> confined(p) && len(p) > 0 && p[0] == '/' @rooted-and-cleaned
 
 // fixed-size requests: nothing beyond the 16-byte command is consumed
 //@ func Reader.ReadReadFile
@@ -406,3 +406,7 @@ package proto
 //@   ensures[C03,C05] fsize[data] == (n <= 0 ? 0 : min(n, max(fsize[c] - old(fpos[c]), 0))) && (forall k {fcontent[data][k]} :: fcontent[data][k] == fcontent[c][old(fpos[c]) + k]) @payload-window
 //@   ensures forall g {fpos[g]} :: old(allocated(g)) ==> fpos[g] == old(fpos[g])
 //@   ensures forall g {limbase[g]} :: old(allocated(g)) ==> limbase[g] == old(limbase[g])
+
+//@ func cleanPath results(r)
+//@   tags C01,C04
+//@   ensures[C01] confined(r) && len(r) > 0 && r[0] == '/' @no-dotdot-survives
